@@ -9,8 +9,9 @@ request : `c20 <repl 0|1> <data> <op> <op> …`
           `S~p~e~fail~SS`         sparsify, SS = comps `|`, curves `;`, curve = `u:m1,m2,…:a:b`
           `C~r~p~e~fail~Z~SS`     add_noise_and_sparsify
           `K~r~p~e~fail~Z~SS`     the same as coded before the repair (no `finally`)
-  fail  : `-` (no fault) | `k` (k-th fault point raises) | `all` (no fault, then every k in turn;
-          the history continues from the run without fault)
+  fail  : `-` (no fault) | `k` (k-th fault point raises) | `all` (no fault, then every k in turn);
+          the ops that FOLLOW an `all` op are its tail: after the fault-free run and after every fault
+          run they are executed without fault from the state that run left behind (`^`-joined to the run)
 answer : one segment per op (space separated).  A run is `status!ticks!trace!data#noisy#sparse`;
          for `all` the runs are joined with `%` (first the run without fault; the fault runs print
          only the label of the failing call in the trace field).
@@ -91,14 +92,22 @@ def showRunShort (r : Except Err Unit × St) : String :=
   (match r.1 with | .ok _ => "ok" | .error e => showErr e) ++ "!" ++ toString r.2.sc.tick ++ "!" ++
     r.2.sc.trace.headD "-" ++ "!" ++ showSim r.2.sim
 
+/-- the operations that follow (no fault), run from the state a run left behind: `^`-joined -/
+def runTail (tail : List (M Unit)) (sim : Sim) : String :=
+  (tail.foldl (fun (acc : String × Sim) (x : M Unit) =>
+    let r := run x acc.2 none
+    (acc.1 ++ "^" ++ showRunShort r, r.2.sim)) ("", sim)).1
+
 /-- all runs of one op; returns the answer segment and the state the history continues from -/
-def runOp (x : M Unit) (sim : Sim) : Fail → String × Sim
+def runOp (x : M Unit) (sim : Sim) (tail : List (M Unit)) : Fail → String × Sim
   | .none => let r := run x sim none; (showRun r, r.2.sim)
   | .at k => let r := run x sim (some k); (showRun r, r.2.sim)
   | .all =>
     let r := run x sim none
     let n := r.2.sc.tick
-    ("%".intercalate (showRun r :: (List.range n).map fun k => showRunShort (run x sim (some k))), r.2.sim)
+    ("%".intercalate ((showRun r ++ runTail tail r.2.sim) :: (List.range n).map fun k =>
+      let rk := run x sim (some k)
+      showRunShort rk ++ runTail tail rk.2.sim), r.2.sim)
 
 def parseOp? (repl : Bool) (s : String) : Option (M Unit × Fail) :=
   match s.splitOn "~" with
@@ -123,10 +132,16 @@ def answer (l : String) : String :=
   | "c20" :: repl :: d :: ops =>
     match parseData? d, ops.mapM (parseOp? (repl = "1")) with
     | some d, some ops =>
-      let go := ops.foldl (fun (acc : List String × Sim) (o : M Unit × Fail) =>
-        let (s, sim') := runOp o.1 acc.2 o.2
-        (s :: acc.1, sim')) (([] : List String), ({ data := d } : Sim))
-      " ".intercalate go.1.reverse
+      -- the ops after an `all` op are its tail: they are run (without fault) after the fault-free run
+      -- and after every fault run, from the state that run left behind
+      let rec go (ops : List (M Unit × Fail)) (sim : Sim) (acc : List String) : List String :=
+        match ops with
+        | [] => acc.reverse
+        | (x, .all) :: rest => (( runOp x sim (rest.map (·.1)) .all).1 :: acc).reverse
+        | (x, f) :: rest =>
+          let (s, sim') := runOp x sim [] f
+          go rest sim' (s :: acc)
+      " ".intercalate (go ops ({ data := d } : Sim) [])
     | _, _ => "bad"
   | _ => "bad-op"
 
